@@ -5,6 +5,8 @@ From Frugal.gen Require Import Params.
 From Frugal.proofs Require Import GenDecParams GenDepthOdd GenTables RoundTrip.
 From Frugal.props Require Import Examples.
 From Frugal.proofs Require Import MapOrder.
+From Frugal Require Import DisciplineChecks.
+From Frugal.proofs Require Import GenEqual GenDepthArgs.
 Import ListNotations.
 
 Theorem C01_roundtrip : forall env pool sid v rest,
@@ -65,3 +67,8 @@ Proof. pose proof order_matters_without_keys_distinct as H. tauto. Qed.
 (* [enc_params_ok], which C01_absorb_denote assumes, is part of [dec_params_ok] (ParamsSplit.dec_enc) *)
 Theorem C01_side_conditions : dec_params_ok = true /\ depth_odd_ok = true /\ tables_ok = true.
 Proof. split; [exact dec_params_ok_holds | split; [exact depth_odd_ok_holds | exact tables_ok_holds]]. Qed.
+
+(* structural facts about the Go source which the hand-written model builds in (DisciplineChecks.v),
+   read from the source by the translator and re-proved on every run *)
+Theorem C01_model_assumptions : equal_ok = true /\ depth_args_ok = true.
+Proof. split; [exact equal_ok_holds | exact depth_args_ok_holds]. Qed.
